@@ -15,7 +15,7 @@ P = {
          'SmallSet clause: decided by a counting allocator on histories whose key domain has exactly N keys (correspondence only). Global operator new is not instrumented (allocator ledger only). ' + TB),
  'C07': ('proof', 'Lean theorems (bounds, capacity monotone along histories, reserve, no reallocation when the result fits, buffer hand-over on move/swap) over generated words + correspondence of capacity()/allocator calls/element event counts',
          'data() identity is observed through allocator-call counts and inline/heap state, not raw addresses. ' + TB),
- 'C08': ('proof', 'Lean theorems: overflow_error iff needed > size_type max, raised before any word is written; out_of_range of the generated Check; no wrap-around (laws in unbounded arithmetic over definitions computed modulo 2^bits) + near-limit histories with before/after comparison under ASan/UBSan',
+ 'C08': ('proof', 'Lean theorems: overflow_error iff needed > size_type max, raised before any word is written; out_of_range of the generated Check; no wrap-around (laws in unbounded arithmetic over definitions computed modulo 2^bits); container level (Props/C08b.lean): append / insert of a single-pass range that hits the limit (or whose element copy / allocation throws) leaves exactly the old elements, every growing operation throws with the container unchanged (StrongPost, Props/C09.lean) + near-limit histories with before/after comparison under ASan/UBSan',
          'Single-pass input ranges have no length known in advance: capacity may grow before the limit is met (contents are restored). Signed size types by correspondence only. ' + TB),
  'C11': ('proof', 'Lean theorems on the SmallSet model: erase(position) yields the sequence without that element in either state incl. the fall-back to inline, returned position is end() iff nothing follows, iteration sequence has no duplicates, the erase-while-iterating loop terminates in size() trips leaving exactly the unselected elements + iterator histories on the real sets (variant iterators and raw-pointer iterators)',
          'Iterators are indices in the model; real iterator equality/dereference is observed by the harness. ' + TB),
